@@ -57,9 +57,9 @@ def menu(name, L):
         c += [('expect', ('ab', 'TIMEOUT'), 2, 0), ('expect', ('aba', 'TIMEOUT'), -1, 0),
               ('list', ('abab', 'TIMEOUT'), 1, 5)]
     if name == 'c03x':
-        c += [('expect', ('aba',), 2, 5), ('expect', ('ab',), -1, 5)]
+        c += [('expect', ('aba',), 2, 5), ('expect', ('ab',), -1, 5), ('setsw', 2), ('setsw', None)]
     if name == 'c03r':
-        c += [('exact', ('aba',), 2, 5), ('exact', ('ab',), -1, 5)]
+        c += [('exact', ('aba',), 2, 5), ('exact', ('ab',), -1, 5), ('setsw', 3), ('setsw', None)]
     if name == 'c03nl':
         for p in (('a$',), ('^b',), ('a\n',), ('a.b',)):
             for sw in (-1, 1, 2, 3):
@@ -92,12 +92,13 @@ class World(c01.World):
         return out
 
     def do_call(self, sp, env, call, ch, flags=None):
+        self.inst_sw_at_call = sp.searchwindowsize
         out, viol = c01.World.do_call(self, sp, env, call, ch, flags)
         if viol or call[0] not in ('expect', 'exact', 'list'):
             return out, viol
         kind = 'exact' if call[0] == 'exact' else 're'
         names, sw = call[1], call[2]
-        W = self.task['inst_sw'] if sw == -1 else sw
+        W = self.inst_sw_at_call if sw == -1 else sw
         last = self.last
         answers = [a if (a is EOF or a is TIMEOUT) else (a if self.enc is None else a.decode(self.enc))
                    for a in last['answers']]
